@@ -169,15 +169,21 @@ def tester (d : Doc) (attrTester : Bool) (t : MTest) (m : Nat) : Score :=
   match t with
   | .root => if d.kind m == .root && rootTypeAccepted d.rootKind then .other else .none   -- testRoot
   | .set S => if S.contains m then .other else .none                             -- `n == context` over the node list
+  -- every testAttribute* function also requires `isNamespaceDeclaration(context) == false`
   | .t (.name s) =>
-    if d.kind m == (if attrTester then Kind.attr else Kind.elem) && d.name m == s then .qname else .none
+    if d.kind m == (if attrTester then Kind.attr else Kind.elem) && d.name m == s &&
+        !(attrTester && Doc.isNsDeclName (d.name m)) then .qname else .none
   | .t (.qname _ uri loc) =>                                                    -- testElementQName / testAttributeQName
-    if d.kind m == (if attrTester then Kind.attr else Kind.elem) && d.name m == "{" ++ uri ++ "}" ++ loc then .qname
+    if d.kind m == (if attrTester then Kind.attr else Kind.elem) && d.name m == "{" ++ uri ++ "}" ++ loc &&
+        !(attrTester && Doc.isNsDeclName (d.name m)) then .qname
     else .none
   | .t (.nsAny _ uri) =>                                                        -- test…NamespaceOnly: eMatchScoreNSWild
-    if d.kind m == (if attrTester then Kind.attr else Kind.elem) && ("{" ++ uri ++ "}").isPrefixOf (d.name m) then .nsWild
+    if d.kind m == (if attrTester then Kind.attr else Kind.elem) && ("{" ++ uri ++ "}").isPrefixOf (d.name m) &&
+        !(attrTester && Doc.isNsDeclName (d.name m)) then .nsWild
     else .none
-  | .t .any => if d.kind m == (if attrTester then Kind.attr else Kind.elem) then .nodeTest else .none
+  | .t .any =>
+    if d.kind m == (if attrTester then Kind.attr else Kind.elem) && !(attrTester && Doc.isNsDeclName (d.name m)) then .nodeTest
+    else .none
   | .t .text => if d.kind m == .text then .nodeTest else .none
   | .t .comment => if d.kind m == .comment then .nodeTest else .none
   | .t .pi => if d.kind m == .pi then .nodeTest else .none
